@@ -12,13 +12,25 @@ func getTypeFromSchema(schema *spec.Schema) (typeName string, isArray bool) {
 	if len(refStr) > 0 {
 		return refStr, false
 	}
+	if len(schema.Type) == 0 {
+		return "", false
+	}
 	typeName = schema.Type[0]
 	if typeName == ArrayType {
-		typeName, _ = getSchemaType(&schema.Items.Schema.SchemaProps)
-		return typeName, true
+		return arrayItemsType(schema.Items), true
 	}
 	return typeName, false
 
+}
+
+// arrayItemsType returns the type name of the items of an array schema, or the empty string when there is no
+// single items schema (missing items, or a tuple)
+func arrayItemsType(items *spec.SchemaOrArray) string {
+	if items == nil || items.Schema == nil {
+		return ""
+	}
+	typeName, _ := getSchemaType(&items.Schema.SchemaProps)
+	return typeName
 }
 
 func getTypeFromSimpleSchema(schema *spec.SimpleSchema) (typeName string, isArray bool) {
@@ -47,8 +59,7 @@ func getTypeFromSchemaProps(schema *spec.SchemaProps) (typeName string, isArray 
 			typeName = fmt.Sprintf("%s.%s", typeName, format)
 		}
 		if typeName == ArrayType {
-			typeName, _ = getSchemaType(&schema.Items.Schema.SchemaProps)
-			return typeName, true
+			return arrayItemsType(schema.Items), true
 		}
 	}
 	return typeName, false
